@@ -206,6 +206,8 @@ class Interp(ExprMixin, WhileMixin):
         self.sym_neq = {}
         self.truth = {}
         self.loop_ctx = []
+        self._round_tags = []   # per abstract loop being run: 1 in its first round, 2 in the later one
+        self._rounds_run = {}   # id(over) -> rounds of abstract loops over it run on this path
         self.global_choice = {}
         self.shared_objs = {}
 
@@ -850,6 +852,17 @@ class Interp(ExprMixin, WhileMixin):
                 for item in list(it.items):
                     body(item)
                 for over_, per in it.loop_parts:
+                    meta = getattr(it, "_part_meta", {}).get(id(over_))
+                    tagged = meta and meta["hits"] == 2 and self._rounds_run.get(id(over_)) == 2 and \
+                        all(meta["tags"].get(repr(x)) for x in per)
+                    if tagged:
+                        # exactly one item per iteration of the producing loop: iteration k here sees what iteration k there made
+                        fst = [x for x in per if 1 in meta["tags"][repr(x)]]
+                        ltr = [x for x in per if 2 in meta["tags"][repr(x)]]
+                        if fst and ltr:
+                            self._abstract_loop(AltV(fst) if len(fst) != 1 else fst[0], self.list_minlen(over_), over_, body,
+                                                later=AltV(ltr) if len(ltr) != 1 else ltr[0])
+                            continue
                     self._abstract_loop(AltV(per) if len(per) != 1 else per[0], 0, over_, body)
             except _Break:
                 self._broke = True
@@ -862,7 +875,7 @@ class Interp(ExprMixin, WhileMixin):
         except _Break:
             self._broke = True
 
-    def _abstract_loop(self, elem: V, minlen: int, over: V, body: Callable[[V], None]):
+    def _abstract_loop(self, elem: V, minlen: int, over: V, body: Callable[[V], None], later: Optional[V] = None):
         known_zero = isinstance(over, ListV) and over.len_eq == 0
         if known_zero:
             return
@@ -884,19 +897,25 @@ class Interp(ExprMixin, WhileMixin):
         try:
             # two rounds so that loop-carried values reach their join
             hook = getattr(self, "_loop_round_hook", None)
-            first, later = elem, elem
-            if isinstance(elem, PyTuple) and elem.items and isinstance(elem.items[0], Sym) and elem.items[0].op == "index":
+            first, later = elem, (elem if later is None else later)
+            if later is elem and isinstance(elem, PyTuple) and elem.items and isinstance(elem.items[0], Sym) and elem.items[0].op == "index":
                 # enumerate(): the first iteration has index 0, every later one a positive index
                 first = PyTuple([Const(0)] + list(elem.items[1:]))
                 later = PyTuple([Sym("posindex", elem.items[0].args[0] if elem.items[0].args else None, hint="int")] + list(elem.items[1:]))
+            self._round_tags.append(1)
+            self._rounds_run[id(over)] = self._rounds_run.get(id(over), 0) + 1
             body(first)
             if hook:
                 hook(1, over)
+            self._round_tags[-1] = 2
+            self._rounds_run[id(over)] += 1
             body(later)
             if hook:
                 hook(2, over)
         finally:
             self.loop_ctx.pop()
+            if len(self._round_tags) > len(self.loop_ctx):
+                self._round_tags.pop()
 
     # ------------------------------------------------------------------------------------
     def exec_try(self, st: ast.Try, env: Dict[str, V], module: Module):
